@@ -1438,19 +1438,19 @@ int main(int argc, char **argv)
   const int depthDeep = envInt("C12_DEPTH_DEEP", 4);
   const int depthBoundary = envInt("C12_DEPTH_BOUNDARY", 3);
   const int depthBig = envInt("C12_DEPTH_BIG", thorough ? 2 : 1); // 100 MiB values: ~5 s of CRC and copying per set / reload
-  histScn("hist", [=]() { history(ALPHA_FULL, depthFull, 1, U, PFX); }, 40);
+  histScn("hist", [=]() { history(ALPHA_FULL, depthFull, 1, U, PFX); }, 100);
   {
     // quick: the first 14 operations of the reduced alphabet; thorough: all 18 (depth 4 both)
     std::vector<Op> alpha(ALPHA_DEEP.begin(), ALPHA_DEEP.begin() + (thorough ? long(ALPHA_DEEP.size()) : 14));
-    histScn("hist_reduced", [=]() { history(alpha, depthDeep, 1, U, PFX); }, thorough ? 60 : 20);
+    histScn("hist_reduced", [=]() { history(alpha, depthDeep, 1, U, PFX); }, thorough ? 120 : 45);
   }
   histScn(
     "boundary",
     [=]()
     { history(ALPHA_BOUNDARY, depthBoundary, 1, {KEY_MAX, KEY_BIN, KEY_OVER}, {"", std::string("\xfe", 1), std::string("\0", 1), KEY_MAX}); },
-    4);
+    3);
   histScn(
-    "bigvalue", [=]() { history(ALPHA_BIG, depthBig, 1, {"a"}, {"", "a"}, 0xffffffffu); }, 8);
+    "bigvalue", [=]() { history(ALPHA_BIG, depthBig, 1, {"a"}, {"", "a"}, 0xffffffffu); }, thorough ? 20 : 6);
   v.back().exec_timeout_s = 300;
   histScn("cache0", [=]() { history(ALPHA_CACHE0, 2, 0, {"a", "ab"}, {"", "a"}); }, 1);
   for (const RaceScn &s : RACES)
@@ -1467,7 +1467,7 @@ int main(int argc, char **argv)
     m.thorough.S = 1;
     m.thorough.total = s.tTot;
     m.horizon_s = 600;
-    m.weight = thorough ? 4 : (s.qTot > 1 ? 6 : 1);
+    m.weight = thorough ? 12 : (s.qTot > 1 ? 12 : 1);
     v.push_back(m);
   }
 #endif
